@@ -37,8 +37,8 @@ Judge(r) ==
            supers == {o.oid : o \in {x \in P.occs : x.name = "super"}} IN
        IF obs # exp
          THEN IF \E it \in AliasedItems(files[r.main]) : NodeOf(P, it.oid) = d
-                (* the symbol is imported as `a as x': that argument is one usage, the edit blanks it and renames the uses of the alias *)
-                THEN <<V(r.id, "deviation", "AliasedImportArgIsOneUsage", "edit set " \o ToString(obs) \o " expected " \o ToString(exp) \o at)>>
+                (* the symbol is imported as `a as x': the edit blanks that argument and renames the uses of the alias *)
+                THEN <<V(r.id, "deviation", "RenameBlanksAliasedImport", "edit set " \o ToString(obs) \o " expected " \o ToString(exp) \o at)>>
               ELSE IF obs = {} /\ occ.file # r.main      \* inside an imported file the position is also inside the file definition, which is not renamable
                 THEN <<V(r.id, "deviation", "ImportedFileSpanShadowsSymbols", "rename offered but no edit returned" \o at)>>
               ELSE IF stray # {} /\ stray \subseteq ShadowedCalls(P, d)
